@@ -5,7 +5,7 @@ AST (plain tuples):
   path   ('path', root, [seg])    seg: ('k', style, name) | ('i', int) | ('n', root, [key])   key: ('k', name) | ('i', int)
          style: 'dot' | 'sq' | 'dq'
   expr   ('lit', value) | path                      value: None | bool | int | str
-  fexpr  (expr, [filter])                           filter: 'upcase' | 'size' | ('default', value)
+  fexpr  (expr, [filter])                           filter: 'upcase' | 'size' | ('default', value) | ('has', attr, expr|None)
   atom   ('truthy', expr) | ('eq', expr, value) | ('ne', expr, value) | ('lt', expr, int)
   cond   ('atom', atom) | ('and', atom, cond) | ('or', atom, cond)
   node   ('text', s) | ('out', fexpr) | ('assign', x, fexpr) | ('capture', x, body) | ('if', cond, th, el)
@@ -13,9 +13,10 @@ AST (plain tuples):
          | ('include', name, None | (path, alias|None), [(k, expr)])
          | ('render', name, None | (path, loop, alias|None), [(k, expr)])
          | ('macro', name, [(param, expr|None)], body) | ('call', name, [(k, expr)]) | ('incr', x) | ('decr', x)
+         | ('block', name, body) | ('extends', base, [(name, body)])     (the child's blocks follow the extends tag)
   iter   ('ipath', path) | ('irange', a, b)
   case   dict(mode='strict'|'lax', uk='default'|'strict'|'falsy'|'strictdefault', loader={name: body},
-              args={}, matter={}, tglobals={}, eglobals={}, body=[node])
+              args={}, matter={}, tglobals={}, eglobals={}, body=[node], flags=(string_first_and_last, string_sequences))
 """
 
 from __future__ import annotations
@@ -127,6 +128,8 @@ def expr_src(e):
 def filter_src(f):
     if f == "upcase" or f == "size":
         return f
+    if f[0] == "has":
+        return "has: '" + f[1] + "'" + (", " + expr_src(f[2]) if f[2] is not None else "")
     return "default: " + lit_src(f[1])
 
 
@@ -202,6 +205,10 @@ def node_src(n):
         return "{% increment " + n[1] + " %}"
     if t == "decr":
         return "{% decrement " + n[1] + " %}"
+    if t == "block":
+        return "{% block " + n[1] + " %}" + body_src(n[2]) + "{% endblock %}"
+    if t == "extends":
+        return "{% extends '" + n[1] + "' %}" + "".join("{% block " + k + " %}" + body_src(b) + "{% endblock %}" for k, b in n[2])
     raise ValueError(t)
 
 
@@ -263,6 +270,8 @@ def g_filter(f):
         return "FUpcase"
     if f == "size":
         return "FSize"
+    if f[0] == "has":
+        return f"FHas {g_str(f[1])} {g_opt(f[2], g_expr)}"
     return f"FDefault {g_scalar(f[1])}"
 
 
@@ -328,6 +337,10 @@ def g_node(n):
         return f"NIncr {g_str(n[1])}"
     if t == "decr":
         return f"NDecr {g_str(n[1])}"
+    if t == "block":
+        return f"NBlock {g_str(n[1])} {g_body(n[2])}"
+    if t == "extends":
+        return f"NExtends {g_str(n[1])} " + g_list(f"({g_str(k)}, {g_body(b)})" for k, b in n[2])
     raise ValueError(t)
 
 
@@ -336,7 +349,8 @@ G_UK = {"default": "UDefault", "strict": "UStrict", "falsy": "UFalsy", "strictde
 
 def g_case(case):
     loader = g_list(f"({g_str(k)}, {g_body(b)})" for k, b in case["loader"].items())
-    return (f"(Case {'MStrict' if case['mode'] == 'strict' else 'MLax'} {G_UK[case['uk']]} {loader} "
+    fl, sq = case.get("flags", (False, False))
+    return (f"(Case {'MStrict' if case['mode'] == 'strict' else 'MLax'} {G_UK[case['uk']]} (Flags {g_bool(fl)} {g_bool(sq)}) {loader} "
             f"{g_ns(case['args'])} {g_ns(case['matter'])} {g_ns(case['tglobals'])} {g_ns(case['eglobals'])} "
             f"{g_body(case['body'])})")
 
@@ -345,9 +359,9 @@ def g_obs(obs):
     return f"(Ok {_g_str_literal(obs[1])})" if obs[0] == "out" else f"(Err {obs[1]})"
 
 
-def mk_case(body, loader=None, args=None, matter=None, tglobals=None, eglobals=None, mode="strict", uk="default"):
+def mk_case(body, loader=None, args=None, matter=None, tglobals=None, eglobals=None, mode="strict", uk="default", flags=(False, False)):
     return {"mode": mode, "uk": uk, "loader": loader or {}, "args": args or {}, "matter": matter or {},
-            "tglobals": tglobals or {}, "eglobals": eglobals or {}, "body": body}
+            "tglobals": tglobals or {}, "eglobals": eglobals or {}, "body": body, "flags": tuple(flags)}
 
 
 def case_sources(case):
@@ -356,6 +370,7 @@ def case_sources(case):
 
 def case_json(case):
     d = {k: case[k] for k in ("mode", "uk", "args", "matter", "tglobals", "eglobals")}
+    d["flags"] = list(case.get("flags", (False, False)))
     d.update(case_sources(case))
     return d
 
@@ -372,15 +387,18 @@ def _undefined_class(uk):
 _ENV_CACHE: dict = {}
 
 
-def render_sources(src, partials, args, matter, tglobals, eglobals, mode, uk, use_async):
+def render_sources(src, partials, args, matter, tglobals, eglobals, mode, uk, use_async, flags=(False, False)):
     from liquid import DictLoader, Environment, Mode
     import liquid.extra as ex
 
     try:
-        key = (tuple(sorted(partials.items())), repr(eglobals), mode, uk)
+        key = (tuple(sorted(partials.items())), repr(eglobals), mode, uk, tuple(flags))
         env = _ENV_CACHE.get(key)
         if env is None:
-            env = Environment(loader=DictLoader(dict(partials)), undefined=_undefined_class(uk),
+            cls = Environment
+            if any(flags):   # the feature flags are class attributes of the Environment
+                cls = type("FlagEnv", (Environment,), {"string_first_and_last": bool(flags[0]), "string_sequences": bool(flags[1])})
+            env = cls(loader=DictLoader(dict(partials)), undefined=_undefined_class(uk),
                               globals=dict(eglobals) if eglobals else None,
                               tolerance=Mode.STRICT if mode == "strict" else Mode.LAX)
             ex.add_tags(env)
@@ -398,10 +416,10 @@ def render_sources(src, partials, args, matter, tglobals, eglobals, mode, uk, us
 def render_case(case, use_async=False):
     s = case_sources(case)
     return render_sources(s["template"], s["partials"], case["args"], case["matter"], case["tglobals"],
-                          case["eglobals"], case["mode"], case["uk"], use_async)
+                          case["eglobals"], case["mode"], case["uk"], use_async, case.get("flags", (False, False)))
 
 
 def render_json(d, use_async=False):
     """Re-run a case stored by case_json (replay)."""
     return render_sources(d["template"], d["partials"], d["args"], d["matter"], d["tglobals"], d["eglobals"],
-                          d["mode"], d["uk"], use_async)
+                          d["mode"], d["uk"], use_async, tuple(d.get("flags", (False, False))))
